@@ -9,7 +9,7 @@ import replay
 from common import TARGET, WORK, MachineryError, log
 
 
-def compile_failures(subjects, idxs, derive_extern=None):
+def compile_failures(subjects, idxs, derive_extern=None, use_cache=True):
     """Judge each subject of a failing batch on its own with E2. Returns {index: Verdict} for the
     subjects that do not compile."""
     rlib = e2.driver_rlib()
@@ -22,7 +22,10 @@ def compile_failures(subjects, idxs, derive_extern=None):
         if derive_extern:
             ext.update(derive_extern)
         cases.append({"src": src, "externs": ext, "crate_type": "lib"})
-    verdicts = e2.compile_many(cases)
+    if use_cache:
+        verdicts = e2.compile_many(cases)
+    else:
+        verdicts = [e2.compile_one(c["src"], externs=c["externs"], crate_type="lib", use_cache=False) for c in cases]
     return {i: v for i, v in zip(idxs, verdicts) if not v.ok}
 
 
@@ -40,6 +43,7 @@ def explore(res, tag, subjects, phases=None, kind_to_key=None, derive_dep=None, 
         if not failures:
             break
         bad = {}
+        nondet_batches = set()
         if derive_dep and derive_extern is None and "checked_derive" in derive_dep:
             import e4
             derive_extern = e4.externs()
@@ -47,16 +51,35 @@ def explore(res, tag, subjects, phases=None, kind_to_key=None, derive_dep=None, 
             idxs = next(g for (n, g, _b) in batches if n == bname)
             f = compile_failures(active, idxs, derive_extern)
             if not f:
-                raise MachineryError("batch %s does not build but every subject of it compiles alone:\n%s" % (
-                    bname, _stderr[-3000:]))
+                # The batch failed although each of its subjects compiles on its own: with a deterministic derive this cannot
+                # happen. Re-judge (uncached) twice more; if a subject now fails it is reported as such, otherwise the observed
+                # failure of the batch is reported as a non-deterministic compilation outcome (the error text is real rustc output).
+                for _try in range(2):
+                    f = compile_failures(active, idxs, derive_extern, use_cache=False)
+                    if f:
+                        break
+            if not f:
+                errs = [l for l in _stderr.splitlines() if bname + "/main.rs" in l and "error" in l][:6]
+                res.violation({"kind": "compilation-outcome-not-deterministic", "batch_errors": errs[:3]},
+                              {"note": "a batch of in-domain subjects failed to build while every subject compiles alone (3 attempts)",
+                               "stderr": _stderr[-3000:], "subjects": [active[i].describe() for i in idxs[:5]]},
+                              {"repro.rs": active[idxs[0]].standalone() + "fn main() {}\n"})
+                res.outcome("nondeterministic-build")
+                nondet_batches.add(bname)
+                continue
             bad.update(f)
         for i, v in bad.items():
             not_compiling[active[i].sid] = v
+        if nondet_batches and not bad:
+            # nothing to remove: just try the build again
+            continue
         active = [s for j, s in enumerate(active) if j not in bad]
         if not active:
             break
     else:
-        raise MachineryError("subject batches still fail to build after removing the failing subjects")
+        if not res.violations:
+            raise MachineryError("subject batches still fail to build after removing the failing subjects")
+        active = []
     for sid, v in not_compiling.items():
         s = by_id[sid]
         key = {"kind": "does-not-compile", "config": s.cfg.describe(), "repr": s.decl.repr,
